@@ -236,7 +236,7 @@ FAULTS = [
     #  first error legitimately sits on the next line; such faults are not injected)
 ]
 NEEDS_DIRECTIVE_NEXT = {"res-no-operand", "align-no-operand", "d8-no-operand"}
-DECORATIONS = ["ascii", "before", "on", "after"]
+DECORATIONS = ["ascii", "before", "on", "after", "span"]
 
 
 def directive_or_end_follows(items, pos):
@@ -329,10 +329,14 @@ def render(prog, deco, mb, fault=None):
 
         for i in range(len(its) + 1):
             if f == ffile and i == fpos:
+                if deco == "span":
+                    lines.append(";* a comment that begins here " + mb)          # ... and ends on the line of the fault
                 fault_line = "".join(x + "\n" for x in lines).count("\n") + 1
                 t = ftext.replace("{s}", mb if deco == "on" else "cd")
                 if deco == "on":
                     t = ";*" + mb + "*; " + t
+                if deco == "span":
+                    t = "and ends here *; " + t
                 t += " ; " + (mb if deco == "after" else "here")
                 lines.append(t)
             if i == len(its):
